@@ -82,13 +82,16 @@ def Module.selectPipeline (m : Module) (name : String) : Except String (Option M
 
 /-! ## `Module::assign_api_bindings`: guard, default group, the allocator -/
 
+/-- `default_set`: the selected pipeline's `default_bind_group_index`, 0 when no pipeline is selected;
+    `none` = the index expression panics -/
+def Module.defaultSet (m : Module) : Option Nat :=
+  match m.selected with
+  | some i => (m.pipelines[i]?).map (·.defaultGroup)
+  | none => some 0
+
 def Module.assignApiBindings (m : Module) (p : Params) : Except String Module :=
   if m.assigned then .error "assertion failed: !self.flags.assigned_api_slots" else
-  let dflt : Option Nat :=
-    match m.selected with
-    | some i => (m.pipelines[i]?).map (·.defaultGroup)
-    | none => some 0
-  match dflt with
+  match m.defaultSet with
   | none => .error "index out of bounds"
   | some d =>
     match assign p d m.decls with
@@ -231,11 +234,17 @@ def buildPipeline (t : Target) (ir : Module) (params : Params) (pipeline : Optio
         | .error e => .error e
         | .ok gs => .ok { slots := r, groups := gs }
 
+/-- `if let Some(name) = args.pipeline_name && pipeline.name.node != name { continue; }` -/
+def skipped (filter : Option String) (p : Pipeline) : Bool :=
+  match filter with
+  | some n => decide (p.name ≠ n)
+  | none => false
+
 /-- the `for pipeline in &ir.pipelines` loop of `compile()`; `ir` is the same unbound module in every iteration -/
 def buildLoop (t : Target) (ir : Module) (params : Params) (filter : Option String) : List Pipeline → Except Err (List Built)
   | [] => .ok []
   | p :: ps =>
-    if (match filter with | some n => decide (p.name ≠ n) | none => false) then buildLoop t ir params filter ps
+    if skipped filter p then buildLoop t ir params filter ps
     else
       match buildPipeline t ir params (some p) with
       | .error e => .error e
